@@ -37,6 +37,9 @@ TABLES = [
     dict(kind="discrete", rows=[(-1, 1), (0, 1), (3, 1), (99, 1)]),
     dict(kind="continuous", freq=1, rows=[(0, 1), (3, 2)]),
     dict(kind="continuous", freq=2, rows=[(-2, 1), (2, 1)]),
+    # several rows (different positions) sharing a release time: the order inside a release group is part of the particles' identity
+    dict(kind="discrete", rows=[(0, 1), (0, 1), (2, 1), (2, 2), (2, 1)]),
+    dict(kind="continuous", freq=2, rows=[(0, 1), (0, 2), (4, 1), (4, 1)]),  # file times on the tick grid, as the quantifier demands
 ]
 
 
@@ -56,7 +59,7 @@ def cases(tier, seed):
                     combos = list(itertools.product(b["schemes"], b["periods"])) if tier == "thorough" else [(b["schemes"][k % 3], 1 + (k // 3) % 2)]
                     for sch, P in combos:
                         out.append(dict(nsteps=n, layout=lay, comp=comp, table=ti, scheme=sch, period=P, storage=("i2" if k % 4 == 0 else "f4" if k % 4 == 2 else "f8")))
-                    if comp == "one" and ti == 0:
+                    if ti == 0:  # (in every file composition: with the start between two files the first scalar read straddles them)
                         # vertical advection switched on: depth is part of the position, w is part of the velocity field
                         out.append(dict(nsteps=n, layout=lay, comp=comp, table=ti, scheme=b["schemes"][k % 3], period=1, vertical=True))
                     if comp == "split" and ti in (0, 3):
@@ -124,6 +127,17 @@ def run_dir(case, rev):
                            state=dict(instance_variables=dict(tag="int", **(dict(w="float") if vert else {}))), extra_forcing=["w"] if vert else None,
                            reference=world.tosec("1948-01-01T00:00:00") if vert else None)  # one slice counts its output time from another century
     conf["output"]["instance_variables"]["tag"] = world.ovar("i4")
+    # a model of the OPPOSITE direction set up first in the same process on the same files, start and time step ("where does the water at S go,
+    # where did it come from" in one script); it fails to start when the frames do not reach beyond S, which is fine - nothing of it may stick
+    try:
+        if not rev:  # only before the reversed run: a decoy before both runs would disturb both alike and the mirror differential would not see it
+            raise drive.RunFailed("skipped", "")
+        dconf = drive.roms_conf(d, d / "f_*.nc", S0, S0 - sgn * DT, DT, [dict(mult=1, release_time=world.iso(S0), X=3.3, Y=3.6, Z=5.0, tag=1)], outvars=("pid", "X"),
+                                tracker=dict(advection=case["scheme"]), reversed_=not rev, state=dict(instance_variables=dict(tag="int")), filename="decoy.nc", release_name="decoy.rls")
+        m = drive.make_model(dconf, d)
+        m.finish()
+    except drive.RunFailed:
+        pass
     clock = []
     drive.run_model(conf, d, after_step=lambda m, k: clock.append((m.timer.step, world.tosec(m.timer.time))))
     out = world.read_output([d / "out.nc"])
